@@ -147,9 +147,11 @@ func (router *Router) FindRoute(req *http.Request) (*routers.Route, map[string]s
 		if pathItem == nil {
 			return nil, nil, &routers.RouteError{Reason: routers.ErrPathNotFound.Error()}
 		}
-		if pathItem.GetOperation(method) == nil {
+		if pathItem.Operations()[method] == nil {
 			return nil, nil, &routers.RouteError{Reason: routers.ErrMethodNotAllowed.Error()}
 		}
+		// The path item declares the method but the pattern tree has no route for this request.
+		return nil, nil, &routers.RouteError{Reason: routers.ErrPathNotFound.Error()}
 	}
 
 	if pathParams == nil {
